@@ -1,5 +1,7 @@
-// Correspondence harness for C18: real WebSocketFrame codec and real WebSocketServer data path,
-// driven by the line protocol.  Built against /repo/include on every check run.
+// Correspondence harness for C18: real WebSocketFrame codec, real WebSocketServer / WebSocketClient data paths (incl. the
+// HTTP upgrade boundary through HttpServer::handleIncomingData and the client's 101 handling), re-entrant application
+// sends from callbacks, and two-thread send/close races under DetSched.  Driven by the line protocol; built against
+// ${VERIF_REPO}/include on every check run (link harness/detsched/detsched.cpp).
 #include <algorithm>
 #include <atomic>
 #include <chrono>
@@ -80,9 +82,34 @@
 #undef protected
 #include "common/fake_engine.hpp"
 #include "common/lineproto.hpp"
+#include "detsched/detsched.hpp"
 
+#include <dlfcn.h>
 using namespace iora::network;
 using vh::Bytes;
+
+// OpenSSL's RAND_bytes keeps per-thread state that it tears down (taking its own rwlocks) in a thread-exit destructor,
+// i.e. after a DetSched-managed thread has finished - that wedges the scheduler. While a race runs, the client's
+// mask keys therefore come from a counter (the key is not part of the model: the harness unmasks what was sent).
+static std::atomic<bool> g_fakeRand{false};
+static std::atomic<std::uint64_t> g_randCtr{0x9E3779B97F4A7C15ULL};
+extern "C" int RAND_bytes(unsigned char* buf, int num)
+{
+  if (!g_fakeRand.load())
+  {
+    using F = int (*)(unsigned char*, int);
+    static F real = reinterpret_cast<F>(dlsym(RTLD_NEXT, "RAND_bytes"));
+    return real(buf, num);
+  }
+  for (int i = 0; i < num; ++i)
+  {
+    std::uint64_t z = (g_randCtr += 0x9E3779B97F4A7C15ULL);
+    z = (z ^ (z >> 30)) * 0xBF58476D1CE4E5B9ULL;
+    z = (z ^ (z >> 27)) * 0x94D049BB133111EBULL;
+    buf[i] = static_cast<unsigned char>((z ^ (z >> 31)) & 0xFF);
+  }
+  return 1;
+}
 
 static std::string showFrame(const WebSocketFrame& f, std::size_t consumed)
 {
@@ -92,18 +119,85 @@ static std::string showFrame(const WebSocketFrame& f, std::size_t consumed)
   return o.str();
 }
 
+// ---- scripted application sends (re-entrant from callbacks, or one thread's program in a race) -----------------
+struct SendItem
+{
+  char kind = 't';          // t text, b binary, p ping, c close, d inbound data (race programs only)
+  Bytes bytes;
+  unsigned code = 1000;
+};
+
+static std::vector<std::string> splitOn(const std::string& s, char c)
+{
+  std::vector<std::string> out;
+  std::string cur;
+  for (char ch : s) { if (ch == c) { out.push_back(cur); cur.clear(); } else cur += ch; }
+  out.push_back(cur);
+  return out;
+}
+
+static bool parseItem(const std::string& s, SendItem& it, bool allowData)
+{
+  auto p = splitOn(s, ':');
+  unsigned long long n = 0;
+  if (p.size() == 2 && p[0].size() == 1 && std::string("tbp").find(p[0][0]) != std::string::npos)
+  {
+    it.kind = p[0][0];
+    return vh::ofHex(p[1], it.bytes);
+  }
+  if (p.size() == 2 && p[0] == "d" && allowData) { it.kind = 'd'; return vh::ofHex(p[1], it.bytes); }
+  if (p.size() == 3 && p[0] == "c" && vh::parseNat(p[1], n)) { it.kind = 'c'; it.code = static_cast<unsigned>(n); return vh::ofHex(p[2], it.bytes); }
+  return false;
+}
+
+static bool parseScript(const std::string& s, std::vector<SendItem>& out, bool allowData = false)
+{
+  out.clear();
+  if (s == "-") return true;
+  for (auto& part : splitOn(s, ','))
+  {
+    SendItem it;
+    if (!parseItem(part, it, allowData)) return false;
+    out.push_back(it);
+  }
+  return true;
+}
+
+// the client's limit is configurable only on a tree that has setMaxFrameSize (FC18b); elsewhere the request is ignored
+template <class T> static auto setClientMax(T& c, std::size_t m, int) -> decltype(c.setMaxFrameSize(m), void()) { c.setMaxFrameSize(m); }
+template <class T> static void setClientMax(T&, std::size_t, long) {}
+
+static const char* kSampleKey = "dGhlIHNhbXBsZSBub25jZQ==";   // RFC 6455 1.3; accept = s3pPLMBiTxaQ9kYGzzhZRbK+xOo=
+
 struct Srv
 {
   std::unique_ptr<WebSocketServer> s;
   vh::FakeEngine* eng = nullptr;
   std::vector<std::string> evs;
+  std::vector<SendItem> onText, onBinary, onClose, onError;
+  bool viaHttp = false;
   static constexpr SessionId sid = 7;
+
+  void exec(const SendItem& it)
+  {
+    switch (it.kind)
+    {
+    case 't': s->sendText(sid, std::string(it.bytes.begin(), it.bytes.end())); break;
+    case 'b': s->sendBinary(sid, it.bytes); break;
+    case 'p': s->sendPing(sid, it.bytes); break;
+    case 'c': s->sendClose(sid, static_cast<std::uint16_t>(it.code), std::string(it.bytes.begin(), it.bytes.end())); break;
+    case 'd': s->onUpgradedData(sid, it.bytes.data(), it.bytes.size()); break;
+    }
+  }
+  void runScript(const std::vector<SendItem>& sc) { for (auto& it : sc) exec(it); }
 
   // One server object for the whole run (constructing/destroying an HttpServer costs ~50 ms of
   // thread-pool sleeps); a reset re-creates the per-session state exactly as onUpgradeRequest does.
   void reset(std::size_t maxFrame)
   {
     evs.clear();
+    onText.clear(); onBinary.clear(); onClose.clear(); onError.clear();
+    viaHttp = false;
     if (!s)
     {
       s = std::make_unique<WebSocketServer>("127.0.0.1", 0);
@@ -112,18 +206,65 @@ struct Srv
       TransportConfig cfg;
       cfg.protocol = Protocol::TCP;
       s->_transport = iora::network::test::TransportEngineInjector::withEngine(std::move(fe), cfg);
-      eng->onSend = [this](SessionId, const std::string& b) { evs.push_back("S:" + vh::toHex(b)); };
+      eng->onSend = [this](SessionId, const std::string& b) {
+        if (b.compare(0, 12, "HTTP/1.1 101") == 0) evs.push_back("H101");
+        else if (b.compare(0, 5, "HTTP/") == 0) evs.push_back("H:" + b.substr(9, 3));
+        else evs.push_back("S:" + vh::toHex(b));
+      };
       eng->onCloseCall = [this](SessionId) { evs.push_back("X"); };
-      s->setOnTextMessage([this](SessionId, const std::string& t) { evs.push_back("T:" + vh::toHex(t)); });
-      s->setOnBinaryMessage([this](SessionId, const Bytes& b) { evs.push_back("B:" + vh::toHex(b)); });
+      s->setOnConnect([this](SessionId, const std::string&) { evs.push_back("O"); });
+      s->setOnTextMessage([this](SessionId, const std::string& t) { evs.push_back("T:" + vh::toHex(t)); runScript(onText); });
+      s->setOnBinaryMessage([this](SessionId, const Bytes& b) { evs.push_back("B:" + vh::toHex(b)); runScript(onBinary); });
       s->setOnClose([this](SessionId, std::uint16_t c, const std::string& r) {
         evs.push_back("C:" + std::to_string(c) + ":" + vh::toHex(r));
+        runScript(onClose);
       });
-      s->setOnError([this](SessionId, const std::string&) { evs.push_back("E"); });
+      s->setOnError([this](SessionId, const std::string&) { evs.push_back("E"); runScript(onError); });
     }
     s->setMaxFrameSize(maxFrame);
     s->_sessions.clear();
     s->_sessions[sid] = WebSocketServer::WsSessionState{};
+    {
+      std::lock_guard<std::mutex> lock(s->_sessionMutex);
+      s->_upgradedSessions.erase(sid);
+      s->_sessionInfo.erase(sid);
+    }
+  }
+
+  bool poolIdle() { return s->_threadPool.getPendingTaskCount() == 0 && s->_threadPool.getActiveThreadCount() == 0; }
+
+  // the REAL upgrade boundary: an upgrade request and `trailing` in one read through HttpServer::handleIncomingData
+  // (request extracted, dispatched to the thread pool, onUpgradeRequest, 101 response, buffer drain -> onUpgradedData)
+  void upgrade(const Bytes& trailing)
+  {
+    s->_sessions.clear();
+    {
+      std::lock_guard<std::mutex> lock(s->_sessionMutex);
+      s->_upgradedSessions.erase(sid);
+      s->_sessionInfo[sid] = HttpServer::SessionInfo{};
+    }
+    std::string req = std::string("GET /ws HTTP/1.1\r\nHost: h\r\nUpgrade: websocket\r\nConnection: Upgrade\r\nSec-WebSocket-Key: ") +
+                      kSampleKey + "\r\nSec-WebSocket-Version: 13\r\n\r\n";
+    Bytes all(req.begin(), req.end());
+    all.insert(all.end(), trailing.begin(), trailing.end());
+    s->handleIncomingData(sid, all.data(), all.size());
+    // the request runs on the server's thread pool: wait until it has answered and the pool is idle again
+    auto t0 = std::chrono::steady_clock::now();
+    int calm = 0;
+    while (std::chrono::steady_clock::now() - t0 < std::chrono::seconds(10))
+    {
+      bool answered = false;
+      for (auto& e : evs) if (e[0] == 'H') answered = true;
+      if (answered && poolIdle()) { if (++calm >= 3) break; } else calm = 0;
+      std::this_thread::sleep_for(std::chrono::microseconds(200));
+    }
+    viaHttp = true;
+  }
+
+  void data(const Bytes& d)
+  {
+    if (viaHttp) s->handleIncomingData(sid, d.data(), d.size());   // real routing: upgraded session -> onUpgradedData
+    else s->onUpgradedData(sid, d.data(), d.size());
   }
 
   std::string flush()
@@ -135,6 +276,7 @@ struct Srv
     auto it = s->_sessions.find(sid);
     bool alive = it != s->_sessions.end();
     o += " | buf=" + std::to_string(alive ? it->second.buffer.size() : 0);
+    o += " frag=" + std::to_string(alive ? it->second.fragmentBuffer.size() : 0);
     o += std::string(" alive=") + (alive ? "1" : "0");
     o += std::string(" closeSent=") + ((alive && it->second.closeSent) ? "1" : "0");
     return o;
@@ -142,18 +284,33 @@ struct Srv
 };
 
 
-// Real WebSocketClient, post-upgrade data path, with a capturing transport. Outgoing frames are masked with a
+// Real WebSocketClient with a capturing transport. Outgoing frames are masked with a
 // random key: they are decoded (real parser; W1 covers it) and printed as opcode:fin:unmasked-payload.
 struct Cli
 {
   std::shared_ptr<WebSocketClient> c;
   vh::FakeEngine* eng = nullptr;
   std::vector<std::string> evs;
+  std::vector<SendItem> onText, onBinary, onClose, onError;
   static constexpr SessionId sid = 7;
 
-  void reset()
+  void exec(const SendItem& it)
+  {
+    switch (it.kind)
+    {
+    case 't': c->sendText(std::string(it.bytes.begin(), it.bytes.end())); break;
+    case 'b': c->sendBinary(it.bytes); break;
+    case 'p': c->sendPing(it.bytes); break;
+    case 'c': c->sendClose(static_cast<std::uint16_t>(it.code), std::string(it.bytes.begin(), it.bytes.end())); break;
+    case 'd': c->handleData(sid, it.bytes.data(), it.bytes.size()); break;
+    }
+  }
+  void runScript(const std::vector<SendItem>& sc) { for (auto& it : sc) exec(it); }
+
+  void reset(std::size_t maxFrame = 16777216)
   {
     evs.clear();
+    onText.clear(); onBinary.clear(); onClose.clear(); onError.clear();
     if (!c)
     {
       c = WebSocketClient::create();
@@ -170,11 +327,16 @@ struct Cli
         evs.push_back("S:" + std::to_string(static_cast<unsigned>(static_cast<std::uint8_t>(f->opcode))) + ":" + (f->fin ? "1" : "0") + ":" +
                       vh::toHex(f->payload));
       };
-      c->setOnTextMessage([this](const std::string& t) { evs.push_back("T:" + vh::toHex(t)); });
-      c->setOnBinaryMessage([this](const Bytes& b) { evs.push_back("B:" + vh::toHex(b)); });
-      c->setOnClose([this](std::uint16_t code, const std::string& r) { evs.push_back("C:" + std::to_string(code) + ":" + vh::toHex(r)); });
-      c->setOnError([this](const std::string&) { evs.push_back("E"); });
+      c->setOnConnect([this](const std::string&) { evs.push_back("O"); });
+      c->setOnTextMessage([this](const std::string& t) { evs.push_back("T:" + vh::toHex(t)); runScript(onText); });
+      c->setOnBinaryMessage([this](const Bytes& b) { evs.push_back("B:" + vh::toHex(b)); runScript(onBinary); });
+      c->setOnClose([this](std::uint16_t code, const std::string& r) {
+        evs.push_back("C:" + std::to_string(code) + ":" + vh::toHex(r));
+        runScript(onClose);
+      });
+      c->setOnError([this](const std::string&) { evs.push_back("E"); runScript(onError); });
     }
+    setClientMax(*c, maxFrame, 0);
     {
       std::lock_guard<std::mutex> lock(c->_dataMutex);
       c->_buffer.clear();
@@ -190,6 +352,14 @@ struct Cli
     c->_state.store(WebSocketState::CONNECTED);
   }
 
+  // the state doConnect() leaves while the upgrade response is awaited (key fixed so that the accept value is known)
+  void handshakeState()
+  {
+    c->_upgradeComplete.store(false);
+    c->_wsKey = kSampleKey;
+    c->_state.store(WebSocketState::CONNECTING);
+  }
+
   std::string flush()
   {
     std::string o;
@@ -197,6 +367,7 @@ struct Cli
     for (std::size_t i = 0; i < evs.size(); ++i) { if (i) o += ";"; o += evs[i]; }
     evs.clear();
     o += " | buf=" + std::to_string(c->_buffer.size());
+    o += " frag=" + std::to_string(c->_fragmentBuffer.size());
     o += std::string(" connected=") + (c->_state.load() == WebSocketState::CONNECTED ? "1" : "0");
 #ifndef VERIF_WS_NO_F34
     o += std::string(" closeSent=") + (c->_closeSent ? "1" : "0");
@@ -204,9 +375,134 @@ struct Cli
     o += std::string(" closeSent=?");
 #endif
     o += std::string(" failed=") + (c->_protocolFailed.load() ? "1" : "0");
+    o += std::string(" upgraded=") + (c->_upgradeComplete.load() ? "1" : "0");
     return o;
   }
 };
+
+// ---- two (or more) application threads racing under DetSched ---------------------------------------------------
+// program: threads separated by '/', each a comma-separated list of items (t/b/p/c sends, d:<hex> inbound bytes).
+// One schedule = one ds::run from a fresh session. The answer lists every DISTINCT event sequence seen with one
+// schedule (choice list) that produced it.
+template <class EP> struct Race
+{
+  EP& ep;
+  std::function<void()> fresh;
+  std::vector<std::vector<SendItem>> prog;
+
+  struct Outcome { std::string evs; std::string choices; std::string status; };
+
+  Outcome once()
+  {
+    fresh();
+    g_fakeRand.store(true);
+    bool ok = ds::run([&] {
+      std::vector<std::thread> ts;
+      for (auto& p : prog) ts.emplace_back([this, &p] { for (auto& it : p) ep.exec(it); });
+      for (auto& t : ts) t.join();
+    });
+    g_fakeRand.store(false);
+    Outcome o;
+    o.status = ok ? "ok" : (ds::deadlocked() ? "deadlock" : (ds::stepLimit() ? "steplimit" : "diverged"));
+    o.choices = ds::choicesString();
+    std::string f = ep.flush();
+    o.evs = f.substr(0, f.find(" | "));
+    return o;
+  }
+
+  static std::string show(const std::map<std::string, Outcome>& seen, long runs, bool complete)
+  {
+    std::string out = "race runs=" + std::to_string(runs) + " complete=" + (complete ? "1" : "0") + " outcomes=" + std::to_string(seen.size());
+    for (auto& kv : seen) out += " " + kv.second.status + "@" + (kv.second.choices.empty() ? "-" : kv.second.choices) + "@" + kv.second.evs;
+    return out;
+  }
+
+  // exhaustive depth-first enumeration of the schedule tree (every alternative at every decision), up to `cap` runs
+  std::string explore(long cap)
+  {
+    std::map<std::string, Outcome> seen;
+    std::vector<std::vector<std::uint32_t>> stack;
+    stack.push_back({});
+    long runs = 0;
+    bool complete = true;
+    ds::Options opt;
+    opt.timeoutOneIn = 0;
+    while (!stack.empty())
+    {
+      if (runs >= cap) { complete = false; break; }
+      auto prefix = stack.back();
+      stack.pop_back();
+      ds::options(opt);
+      ds::init(prefix);
+      Outcome o = once();
+      ++runs;
+      seen.emplace(o.status + "@" + o.evs, o);
+      auto ch = ds::choices();
+      auto alts = ds::alternatives();
+      for (std::size_t i = prefix.size(); i < ch.size() && i < alts.size(); ++i)
+        for (auto a : alts[i])
+          if (a != ch[i])
+          {
+            std::vector<std::uint32_t> p(ch.begin(), ch.begin() + static_cast<long>(i));
+            p.push_back(a);
+            stack.push_back(std::move(p));
+          }
+    }
+    return show(seen, runs, complete);
+  }
+
+  std::string random(std::uint64_t seed, long n)
+  {
+    std::map<std::string, Outcome> seen;
+    ds::Options opt;
+    opt.timeoutOneIn = 0;
+    for (long i = 0; i < n; ++i)
+    {
+      ds::options(opt);
+      ds::init(seed * 1000003ULL + static_cast<std::uint64_t>(i));
+      Outcome o = once();
+      seen.emplace(o.status + "@" + o.evs, o);
+    }
+    return show(seen, n, false);
+  }
+
+  std::string replay(const std::string& choices)
+  {
+    std::vector<std::uint32_t> ch;
+    if (choices != "-")
+      for (auto& p : splitOn(choices, ',')) ch.push_back(static_cast<std::uint32_t>(std::stoul(p)));
+    ds::Options opt;
+    opt.timeoutOneIn = 0;
+    ds::options(opt);
+    ds::init(ch);
+    Outcome o = once();
+    std::map<std::string, Outcome> seen;
+    seen.emplace(o.status + "@" + o.evs, o);
+    return show(seen, 1, false);
+  }
+};
+
+template <class EP> static bool parseProgram(const std::string& s, Race<EP>& r)
+{
+  for (auto& th : splitOn(s, '/'))
+  {
+    std::vector<SendItem> p;
+    if (!parseScript(th, p, true) || p.empty()) return false;
+    r.prog.push_back(p);
+  }
+  return r.prog.size() >= 1 && r.prog.size() <= 4;
+}
+
+template <class EP> static std::string raceOp(Race<EP>& r, const std::vector<std::string>& t)
+{
+  // t: <ep> race <program> explore <cap> | random <seed> <n> | replay <choices>
+  unsigned long long a = 0, b = 0;
+  if (!parseProgram(t[2], r)) return "bad-op";
+  if (t.size() == 5 && t[3] == "explore" && vh::parseNat(t[4], a)) return r.explore(static_cast<long>(a));
+  if (t.size() == 6 && t[3] == "random" && vh::parseNat(t[4], a) && vh::parseNat(t[5], b)) return r.random(a, static_cast<long>(b));
+  if (t.size() == 5 && t[3] == "replay") return r.replay(t[4]);
+  return "bad-op";
+}
 
 static std::string guarded(const std::function<std::string()>& f)
 {
@@ -272,14 +568,23 @@ int main()
         f.payload = d;
         return f.isValidUtf8() ? "1" : "0";
       }
+      if (t.size() == 3 && t[0] == "mkclose" && vh::parseNat(t[1], n) && vh::ofHex(t[2], d))
+      {
+        auto f = WebSocketFrame::makeClose(static_cast<std::uint16_t>(n), std::string(d.begin(), d.end()));
+        return vh::toHex(f.serialize(false));
+      }
       if (t.size() >= 2 && t[0] == "srv")
       {
         if (t.size() == 3 && t[1] == "reset" && vh::parseNat(t[2], m)) { srv.reset(m); return "ok"; }
-        if (t.size() == 3 && t[1] == "data" && vh::ofHex(t[2], d))
+        if (t.size() == 6 && t[1] == "script")
         {
-          srv.s->onUpgradedData(Srv::sid, d.data(), d.size());
-          return srv.flush();
+          std::vector<SendItem> a, b, c, e;
+          if (!parseScript(t[2], a) || !parseScript(t[3], b) || !parseScript(t[4], c) || !parseScript(t[5], e)) return "bad-op";
+          srv.onText = a; srv.onBinary = b; srv.onClose = c; srv.onError = e;
+          return "ok";
         }
+        if (t.size() == 3 && t[1] == "upgrade" && vh::ofHex(t[2], d)) { srv.upgrade(d); return srv.flush(); }
+        if (t.size() == 3 && t[1] == "data" && vh::ofHex(t[2], d)) { srv.data(d); return srv.flush(); }
         if (t.size() == 3 && t[1] == "sendText" && vh::ofHex(t[2], d))
         {
           srv.s->sendText(Srv::sid, std::string(d.begin(), d.end()));
@@ -292,10 +597,24 @@ int main()
           srv.s->sendClose(Srv::sid, static_cast<std::uint16_t>(n), std::string(d.begin(), d.end()));
           return srv.flush();
         }
+        if (t.size() >= 5 && t[1] == "race")
+        {
+          Race<Srv> r{srv, [&] { srv.reset(16777216); }, {}};
+          return raceOp(r, t);
+        }
       }
       if (t.size() >= 2 && t[0] == "cli")
       {
         if (t.size() == 2 && t[1] == "reset") { cli.reset(); return "ok"; }
+        if (t.size() == 3 && t[1] == "reset" && vh::parseNat(t[2], m)) { cli.reset(m); return "ok"; }
+        if (t.size() == 6 && t[1] == "script")
+        {
+          std::vector<SendItem> a, b, c, e;
+          if (!parseScript(t[2], a) || !parseScript(t[3], b) || !parseScript(t[4], c) || !parseScript(t[5], e)) return "bad-op";
+          cli.onText = a; cli.onBinary = b; cli.onClose = c; cli.onError = e;
+          return "ok";
+        }
+        if (t.size() == 2 && t[1] == "hs") { cli.reset(); cli.handshakeState(); return "ok"; }
         if (t.size() == 3 && t[1] == "data" && vh::ofHex(t[2], d)) { cli.c->handleData(Cli::sid, d.data(), d.size()); return cli.flush(); }
         if (t.size() == 3 && t[1] == "sendText" && vh::ofHex(t[2], d)) { cli.c->sendText(std::string(d.begin(), d.end())); return cli.flush(); }
         if (t.size() == 3 && t[1] == "sendBinary" && vh::ofHex(t[2], d)) { cli.c->sendBinary(d); return cli.flush(); }
@@ -304,6 +623,11 @@ int main()
         {
           cli.c->sendClose(static_cast<std::uint16_t>(n), std::string(d.begin(), d.end()));
           return cli.flush();
+        }
+        if (t.size() >= 5 && t[1] == "race")
+        {
+          Race<Cli> r{cli, [&] { cli.reset(); }, {}};
+          return raceOp(r, t);
         }
       }
       return "bad-op";
